@@ -21,13 +21,16 @@ type axis struct {
 }
 
 func (a *axis) getIndex(v float64) int {
-	index := int(math.Floor((v-a.start)/a.size)) + 1
-	if index < 0 {
-		index = 0
-	} else if index >= a.bins {
-		index = a.bins - 1
+	// Clamp in the float domain: converting a float64 that does not fit
+	// into an int is implementation-defined (amd64 yields MinInt64, which
+	// counted huge values in the underflow bin).
+	f := math.Floor((v - a.start) / a.size)
+	if f >= float64(a.bins-1) {
+		return a.bins - 1
+	} else if f >= 0 {
+		return int(f) + 1
 	}
-	return index
+	return 0
 }
 
 type bin struct {
